@@ -38,7 +38,7 @@ func (P) Engine() string { return "E1" }
 func (P) Describe() harness.Description {
 	return harness.Description{
 		MustHit: []string{"probe_admitted", "probe_blocked_rollback", "straggler_or_probe_completion"},
-		Level: "exploration",
+		Level:   "exploration",
 		Rule: "case = (1-2 resources, 1-2 breakers per resource over all three strategies, thresholds incl. 0 and 1, minimum amounts, retry timeouts, statistic intervals x bucket counts (incl. non-dividing), probe numbers 0-3, slow-RT limits; 20-100 ops: start request, complete request j (ok/error, duration = virtual time elapsed), ticks biased to the retry deadline (exact, -1, +1), bucket boundaries and whole-window gaps). " +
 			"Every Entry result (pass / circuit-breaking block with the blocking rule) must equal the reference machine's, and after every op the listener log must equal the reference transition list (same transitions, same previous state, each once). " +
 			"non-trivial = a breaker went Closed->Open->HalfOpen and then closed or re-opened; distinct = hash(config, ops)",
